@@ -429,6 +429,78 @@ def c17(tier):
     return out.finish()
 
 
+def c20(tier):
+    out = Outcome("C20", tier, "model_checking")
+    t0 = time.time()
+    vbuild.ensure_tree("dbgn")
+    seq = vbuild.ensure_harness("dbgn", "seqref")
+    expect = os.path.join(TMP, "c20.seq.%d.txt" % os.getpid())
+    os.makedirs(TMP, exist_ok=True)
+    with open(expect, "w") as f:
+        subprocess.check_call([seq], stdout=f)
+    vbuild.ensure_tree("par")
+    exe = vbuild.ensure_harness("par", "schedmc", extra_flags=["-rdynamic", "-ldl"])
+    args = ["--expect", expect, "--tier", tier, "--jobs", vbuild.JOBS]
+    if tier != "quick":
+        args += ["--deadline_s", DEADLINE_S]
+    r = run_harness(exe, args, tmpfile("c20"))
+    out.add_findings(r["findings"], "schedmc", "par", exe=exe, args=["--expect", expect])
+    # race detection: free-running ThreadSanitizer pass over the same scenario bodies
+    vbuild.ensure_tree("par-tsan")
+    rf = vbuild.ensure_harness("par-tsan", "racefree")
+    reps = 40 if tier == "quick" else 400
+    env = dict(os.environ)
+    env["TSAN_OPTIONS"] = "halt_on_error=0:exitcode=66:report_signal_unsafe=0"
+    p = subprocess.run([rf, "--expect", expect, "--reps", str(reps)], stdout=subprocess.PIPE, stderr=subprocess.PIPE, env=env)
+    so, se = p.stdout.decode(errors="replace"), p.stderr.decode(errors="replace")
+    tsan_reports = se.count("WARNING: ThreadSanitizer")
+    if tsan_reports or p.returncode == 66:
+        # key by the innermost /repo frame of the first report
+        import re
+        m = re.search(r"#\d+ (\S+) (/\S*?/(smt/\S+?):(\d+))", se)
+        site = (m.group(3) + ":" + m.group(1)) if m else "unknown-site"
+        out.findings.append({"key": "C20:data-race:" + site, "case": "racefree --reps %d (free-running, ThreadSanitizer)" % reps, "msg": se[:3000], "count": tsan_reports, "engine": "racefree", "cfg": "par-tsan"})
+    elif p.returncode != 0:
+        first = [l for l in so.splitlines() if l.startswith("MISMATCH")]
+        out.findings.append({"key": "C20:free-run-differs-from-sequential", "case": first[0] if first else "racefree exit %d" % p.returncode, "msg": (so + se)[:3000], "count": 1, "engine": "racefree", "cfg": "par-tsan"})
+    free_runs = 0
+    for l in so.splitlines():
+        if l.startswith("runs="):
+            free_runs = int(l.split()[0][5:])
+    out.coverage = {
+        "states": max(1, r["distinct"].get("outcomes", 0)),
+        "transitions": r["counters"].get("scheduling_points", 0),
+        "traces_validated_against_impl": r["counters"].get("schedules", 0),
+        "samples": r["samples"][:5],
+        "exhaustive": r["exhaustive"],
+        "levels_completed": r.get("levels"),
+        "tsan_free_runs": free_runs, "tsan_reports": tsan_reports,
+        "explanation": "stateless preemption-bounded exploration (CHESS style) of the real smt::thread_pool + lra_theory::pivot built with "
+                       "PARALLELIZE: pthread_mutex_lock/unlock, pthread_cond_wait/signal/broadcast, pthread_create/join issued by libstdc++ are "
+                       "interposed at link time and routed to a cooperative scheduler (one runnable thread, blocked threads are blocked, no "
+                       "enabled thread = deadlock); every intercepted operation is a scheduling point; switches forced by blocking are free, "
+                       "switching away from a runnable thread costs one preemption; ALL schedules within the bound are executed for each "
+                       "(scenario, pool size, bound) listed in levels_completed (7 scenarios: three direct pivots with 1-3 other rows sharing "
+                       "the entering variable, incl. a coefficient cancelling to zero; root assertions forcing 1-2 pivots; decisions with a "
+                       "conflict and backjump; an infeasible system). Oracle per schedule: no deadlock, pool quiescent (no queued task, "
+                       "active == 0) whenever a call returns, and tableau, watch sets, values, bounds, verdicts, assignments and the set of "
+                       "learnt clauses equal those of the SEQUENTIAL build (harness/seqref) for the same call sequence. states = distinct "
+                       "canonical end states observed (one per scenario when the property holds), transitions = scheduling points executed, "
+                       "traces = schedules executed on the implementation. Data races: the same scenario bodies run free under "
+                       "ThreadSanitizer (pool sizes 2-4, %d repetitions each)." % reps,
+    }
+    out.assumptions = ["sequential consistency (the code uses only mutexes and one condition variable)",
+                       "pthread_cond_signal wakes the lowest-numbered waiter; spurious wake-ups are not modelled (thread_pool waits with a predicate)",
+                       "ThreadSanitizer (a dynamic detector over sampled free runs) is the race oracle; the exhaustive part decides equivalence, quiescence and deadlock-freedom",
+                       "object addresses are fixed per execution by the arena allocator, so the enqueue order of row updates is a function of the schedule"]
+    rc = out.finish()  # (replays of findings need the reference file)
+    try:
+        os.remove(expect)
+    except OSError:
+        pass
+    return rc
+
+
 def c16(tier):
     out = Outcome("C16", tier, "exploration")
     parts = [("tokens/rel", "rel", "lexmc", ["--mode", "tokens"]), ("parse/rel", "rel", "lexmc", ["--mode", "parse"]),
@@ -493,7 +565,7 @@ def c18(tier):
 
 
 # ------------------------------------------------------------------------------------------------
-PROPS = {"C17": c17, "C03": c03, "C04": c04, "C05": c05, "C06": c06, "C01": c01, "C02": c02, "C16": c16, "C18": c18, "C15": c15, "C13": c13, "C11": lambda tier: relmc_check("C11", tier), "C12": lambda tier: relmc_check("C12", tier)}
+PROPS = {"C20": c20, "C17": c17, "C03": c03, "C04": c04, "C05": c05, "C06": c06, "C01": c01, "C02": c02, "C16": c16, "C18": c18, "C15": c15, "C13": c13, "C11": lambda tier: relmc_check("C11", tier), "C12": lambda tier: relmc_check("C12", tier)}
 for _p in ("C07", "C08", "C09", "C10", "C14"):
     PROPS[_p] = (lambda pid: (lambda tier: netmc_check(pid, tier)))(_p)
 
@@ -504,6 +576,11 @@ def setup():
         vbuild.ensure_tree(cfg, quiet=False)
     for cfg in ["rel", "dbg-hadd-ci"]:
         vbuild.ensure_harness(cfg, "progrun", quiet=False)
+    for cfg in ["par", "par-tsan"]:
+        vbuild.ensure_tree(cfg, quiet=False)
+    vbuild.ensure_harness("dbgn", "seqref", quiet=False)
+    vbuild.ensure_harness("par", "schedmc", extra_flags=["-rdynamic", "-ldl"], quiet=False)
+    vbuild.ensure_harness("par-tsan", "racefree", quiet=False)
     for cfg, h in [("rel", "arith_enum"), ("dbgn", "arith_enum"), ("dbg", "arith_enum"), ("rel", "reify"), ("dbgn", "reify"), ("rel", "netmc"), ("dbgn", "netmc"), ("rel", "relmc"), ("dbgn", "relmc"), ("rel", "lexmc"), ("dbgn", "lexmc"), ("dbg", "lexmc")]:
         vbuild.ensure_harness(cfg, h, quiet=False)
     print("setup done in %.0fs" % (time.time() - t0))
@@ -514,6 +591,39 @@ def replay(pid, path):
     r = json.load(open(path))
     cfg = r.get("cfg") or "rel"
     eng = r.get("engine")
+    if eng and eng.startswith("progrun:"):
+        import riddle
+        fam = family(eng.split(":", 1)[1])
+        progs = [p for p in fam.generate(True) + fam.generate(False) if p[1] == r["case"]]
+        if not progs:
+            print("replay: program not found in family")
+            return 2
+        res = riddle.run_programs(cfg, [(progs[0][0], progs[0][1])], after_read=getattr(fam, "AFTER_READ", False), limit_ms=60000, tag="replay")
+        rr = res.get(progs[0][0], {"verdict": "missing", "what": ""})
+        j = fam.judge(progs[0], rr)
+        keys = [k for k, _ in (j if isinstance(j, list) else ([j] if j else []))]
+        print("verdict:", rr.get("verdict"), rr.get("what", "")[:500])
+        print("judged:", j)
+        ok = r["key"] in keys
+        print("replay: %s" % ("REPRODUCED" if ok else "not reproduced"))
+        if ok:
+            print("VIOLATION property=%s replay=%s" % (pid, path))
+        return 1 if ok else 0
+    if eng == "schedmc":
+        vbuild.ensure_tree("dbgn")
+        seq = vbuild.ensure_harness("dbgn", "seqref")
+        os.makedirs(TMP, exist_ok=True)
+        expect = os.path.join(TMP, "c20.seq.replay.txt")
+        with open(expect, "w") as f:
+            subprocess.check_call([seq], stdout=f)
+        vbuild.ensure_tree("par")
+        exe = vbuild.ensure_harness("par", "schedmc", extra_flags=["-rdynamic", "-ldl"])
+        ok, txt = common.replay_confirm(exe, r["case"], args=["--expect", expect])
+        print(txt)
+        print("replay: %s" % ("REPRODUCED" if ok else "not reproduced"))
+        if ok:
+            print("VIOLATION property=%s replay=%s" % (pid, path))
+        return 1 if ok else 0
     exe = prep(cfg, eng)
     ok, txt = common.replay_confirm(exe, r["case"], args=r.get("args", []))
     print(txt)
